@@ -1,9 +1,11 @@
 package main
 
 import (
+	"fmt"
 	"go/token"
 	"go/types"
 	"sort"
+	"strconv"
 	"strings"
 
 	"golang.org/x/tools/go/ssa"
@@ -50,6 +52,7 @@ type Fact struct {
 	dAt   ssa.Instruction // and the instruction of the helper at which its operands are evaluated
 	Expr  string
 	If    *ssa.If
+	via   []*ssa.Call // calls of expanded helpers through which the predicate was evaluated
 	loads []*ssa.UnOp // memory reads the predicate depends on
 	calls []*ssa.Call
 }
@@ -78,6 +81,32 @@ func normCmp(x string, op token.Token, y string, xConst, yConst bool) string {
 func condFacts(c ssa.Value, pol bool, ifi *ssa.If, out *[]Fact) {
 	c = stripConv(c)
 	switch v := c.(type) {
+	case *ssa.Call:
+		// predicate helper that is expanded (vinline.go): the fact is the helper's own condition
+		if helperCallee(v) != nil {
+			if in := helperValue(v); in != nil {
+				if _, isC := in.(*ssa.Const); !isC {
+					n0 := len(*out)
+					condFacts(in, pol, ifi, out)
+					for i := n0; i < len(*out); i++ {
+						(*out)[i].via = append((*out)[i].via, v)
+					}
+					if bo, ok := stripConv(in).(*ssa.BinOp); ok && len(*out) == n0+1 && (*out)[n0].dCond == nil {
+						if _, cmp := negOp[bo.Op]; cmp {
+							cp := *bo
+							if !pol {
+								cp.Op = negOp[bo.Op]
+							}
+							// operands are values of the helper's body: bounds are taken there
+							(*out)[n0].dCond = &cp
+							blk := bo.Block()
+							(*out)[n0].dAt = blk.Instrs[len(blk.Instrs)-1]
+						}
+					}
+					return
+				}
+			}
+		}
 	case *ssa.UnOp:
 		if v.Op == token.NOT {
 			condFacts(v.X, !pol, ifi, out)
@@ -187,7 +216,9 @@ func (w *World) factsAt(at ssa.Instruction) []Fact { return w.factsAtK(at, true)
 // was modified afterwards ("the test was performed on this path").
 func (w *World) testedBefore(at ssa.Instruction) []Fact { return w.factsAtK(at, false) }
 
-func (w *World) factsAtK(at ssa.Instruction, kill bool) []Fact {
+func (w *World) factsAtK(at ssa.Instruction, kill bool) []Fact { return w.factsAtKD(at, kill, 0) }
+
+func (w *World) factsAtKD(at ssa.Instruction, kill bool, cdepth int) []Fact {
 	blk := at.Block()
 	fn := blk.Parent()
 	var out []Fact
@@ -223,6 +254,33 @@ func (w *World) factsAtK(at ssa.Instruction, kill bool) []Fact {
 			}
 		}
 	}
+	// postconditions of new helpers called before `at`: facts that hold at every return of the
+	// helper about its results (a mask computed in an extracted helper keeps its loop-exit invariant)
+	if cdepth == 0 {
+		for _, b := range fn.Blocks {
+			for _, ins := range b.Instrs {
+				c, ok := ins.(*ssa.Call)
+				if !ok || helperCallee(c) == nil || ins == at || !instrDominatesFlat(ins, at) {
+					continue
+				}
+				for _, x := range w.helperPost(c) {
+					out = append(out, Fact{Expr: x, If: nil})
+				}
+			}
+		}
+	}
+	if isNewHelper(fn) {
+		have := map[string]bool{}
+		for _, f := range out {
+			have[f.Expr] = true
+		}
+		for _, f := range w.contextFacts(fn, kill, cdepth) {
+			if !have[f.Expr] {
+				have[f.Expr] = true
+				out = append(out, f)
+			}
+		}
+	}
 	out = append(out, w.expandSummaries(out, 0)...)
 	sort.Slice(out, func(i, j int) bool { return out[i].Expr < out[j].Expr })
 	return out
@@ -249,17 +307,32 @@ func (w *World) expandSummaries(fs []Fact, depth int) []Fact {
 			}
 			rc := render(c)
 			class := ""
-			switch f.Expr {
-			case rc + " == nil":
+			ridx := -1
+			rest := ""
+			if strings.HasPrefix(f.Expr, rc) {
+				rest = f.Expr[len(rc):]
+				if strings.HasPrefix(rest, "#") {
+					j := 1
+					for j < len(rest) && rest[j] >= '0' && rest[j] <= '9' {
+						j++
+					}
+					if n, err := strconv.Atoi(rest[1:j]); err == nil {
+						ridx = n
+						rest = rest[j:]
+					}
+				}
+			}
+			switch rest {
+			case " == nil":
 				class = "nil"
-			case rc + " == true":
+			case " == true":
 				class = "true"
-			case rc + " == false":
+			case " == false":
 				class = "false"
 			default:
 				continue
 			}
-			sum := w.returnSummary(callee, class)
+			sum := w.returnSummaryIdx(callee, class, ridx)
 			for _, e := range sum {
 				x := e
 				for i, p := range callee.Params {
@@ -279,7 +352,12 @@ func (w *World) expandSummaries(fs []Fact, depth int) []Fact {
 
 // returnSummary: facts (over the callee's own parameter names) common to all returns of the class.
 func (w *World) returnSummary(fn *ssa.Function, class string) []string {
-	key := fn.String() + "/" + class
+	return w.returnSummaryIdx(fn, class, -1)
+}
+
+// returnSummaryIdx: ridx selects the result the class refers to (-1: last result for "nil", first otherwise).
+func (w *World) returnSummaryIdx(fn *ssa.Function, class string, ridx int) []string {
+	key := fn.String() + "/" + class + "/" + strconv.Itoa(ridx)
 	if w.sumCache == nil {
 		w.sumCache = map[string][]string{}
 	}
@@ -295,6 +373,12 @@ func (w *World) returnSummary(fn *ssa.Function, class string) []string {
 		res := r.Results[len(r.Results)-1]
 		if class != "nil" {
 			res = r.Results[0]
+		}
+		if ridx >= 0 {
+			if ridx >= len(r.Results) {
+				continue
+			}
+			res = r.Results[ridx]
 		}
 		match := false
 		switch class {
@@ -366,6 +450,10 @@ func mentionsOnlyParams(expr string, fn *ssa.Function) bool {
 				continue
 			}
 			if !names[id] {
+				if j < len(expr) && expr[j] == '(' {
+					i = j // a function applied to parameters (bitsToBytes(a.curve…))
+					continue
+				}
 				return false
 			}
 			i = j
@@ -719,4 +807,71 @@ func (w *World) holdsOnAllPaths(at ssa.Instruction, pred func([]Fact) bool, dept
 		}
 	}
 	return true
+}
+
+func instrDominatesFlat(a, b ssa.Instruction) bool {
+	if a.Parent() != b.Parent() {
+		return false
+	}
+	if a.Block() == b.Block() {
+		for _, x := range a.Block().Instrs {
+			if x == a {
+				return true
+			}
+			if x == b {
+				return false
+			}
+		}
+	}
+	return a.Block().Dominates(b.Block())
+}
+
+// helperPost: facts common to all returns of the new helper called by c, phrased over the call's
+// results (`call#k`, or the call itself for a single result) and the caller's arguments.
+func (w *World) helperPost(c *ssa.Call) []string {
+	h := helperCallee(c)
+	if h == nil {
+		return nil
+	}
+	var common map[string]bool
+	for _, r := range returnsD(h, 99) {
+		cur := map[string]bool{}
+		for _, f := range w.factsAtKD(r, true, 1) {
+			x := f.Expr
+			used := false
+			for k, rv := range r.Results {
+				if _, isC := rv.(*ssa.Const); isC {
+					continue
+				}
+				rr := render(rv)
+				if len(rr) < 2 || !strings.Contains(x, rr) {
+					continue
+				}
+				name := render(c)
+				if len(r.Results) > 1 {
+					name = fmt.Sprintf("%s#%d", (&renderer{seen: map[ssa.Value]bool{}}).call(&c.Call), k)
+				}
+				x = strings.ReplaceAll(x, rr, name)
+				used = true
+			}
+			if used {
+				cur[substParams(x, h, &c.Call)] = true
+			}
+		}
+		if common == nil {
+			common = cur
+		} else {
+			for k := range common {
+				if !cur[k] {
+					delete(common, k)
+				}
+			}
+		}
+	}
+	var out []string
+	for k := range common {
+		out = append(out, k)
+	}
+	sort.Strings(out)
+	return out
 }
